@@ -28,6 +28,7 @@ import Reamber.Lemmas.SMDenoteFile
 import Reamber.Lemmas.SMRenderFile
 import Reamber.Lemmas.SMWriteText
 import Reamber.Lemmas.Snapper
+import Reamber.Lemmas.SMTies
 import Mathlib.Tactic.NormNum
 import Reamber.Generated.SMTables
 import Mathlib.Tactic.Ring
@@ -856,6 +857,116 @@ theorem write_read_exact_show (sh : Shows) (hsh : ShowsOK sh) (hsp : ShowsParse 
     exact hsp.parse _
   · rw [trim_bpmsParam sh hsp]
     exact SM.parsePairs_bpmsParam sh hsp _
+
+/-! ### `#BPMS` entries on one beat (tempo rows at one offset) -/
+
+theorem snapOfBeat_zero_le (beat : Rat) (hb : 0 ≤ beat) : (snapOfBeat 0).le (snapOfBeat beat) = true := by
+  have hm : (0 : Int) ≤ (beat / 4).floor :=
+    Rat.le_floor_iff.mpr (by simpa using div_nonneg hb (by norm_num : (0 : Rat) ≤ 4))
+  have hfl := Rat.floor_le (beat / 4)
+  have h0 : snapOfBeat 0 = ⟨0, 0, some 4⟩ := by
+    have := snapOfBeat_measure_line 0
+    simpa using this
+  rw [h0]
+  simp only [snapOfBeat, Snap.le, Snap.lt, Snap.eqv, Bool.or_eq_true, Bool.and_eq_true, decide_eq_true_eq]
+  rcases lt_or_eq_of_le hm with h | h
+  · exact Or.inl (Or.inl (decide_eq_true h))
+  · have hnn : (0 : Rat) ≤ beat - 4 * (((beat / 4).floor : Int) : Rat) := by
+      have : (((beat / 4).floor : Int) : Rat) ≤ beat / 4 := hfl
+      linarith
+    rcases lt_or_eq_of_le hnn with h' | h'
+    · exact Or.inl (Or.inr ⟨decide_eq_true h, decide_eq_true h'⟩)
+    · exact Or.inr ⟨decide_eq_true h, decide_eq_true h'⟩
+
+/-- **`tie_later_wins` — of several `#BPMS` entries on one beat the last one in file order is in force.**  For a
+`#BPMS` list with a first entry on beat 0 and positive tempos, entries on equal beats allowed (`tempoOkWeak`): the
+millisecond position of every beat ≥ 0 is the one obtained from the list without the overridden entries
+(`effectivePairs`: ascending by beat, of the entries of one beat only the last one of the file), and that list is in
+the domain of `write_read_exact` / C02 (`tempoOk`: distinct beats).  So a tempo list with rows at one offset, written
+row by row, denotes what the list of the rows in force denotes — and a writer that emits tied rows in another order
+(an unstable sort) denotes another tempo list. -/
+theorem tie_later_wins (offsetSec : Rat) (bpms : List (Rat × Rat)) (h : tempoOkWeak bpms = true) :
+    tempoOk (effectivePairs bpms) = true ∧
+    ∀ beat : Rat, 0 ≤ beat → timeOfBeat offsetSec bpms beat = timeOfBeat offsetSec (effectivePairs bpms) beat := by
+  have hsorted := isort_pairs_sorted bpms
+  have hstrict : (effectivePairs bpms).Pairwise (fun a b => a.1 < b.1) := dropOverridden_strict _ hsorted
+  have hself : isort (fun a b : Rat × Rat => decide (a.1 ≤ b.1)) (effectivePairs bpms) = effectivePairs bpms := by
+    apply isort_eq_self
+    refine hstrict.imp ?_
+    intro a b hab
+    simpa using le_of_lt hab
+  unfold tempoOkWeak at h
+  simp only [Bool.and_eq_true] at h
+  obtain ⟨hhead, hpos⟩ := h
+  -- the sorted list is `p :: l` with `p` on beat 0
+  cases hl : isort (fun a b : Rat × Rat => decide (a.1 ≤ b.1)) bpms with
+  | nil => rw [hl] at hhead; simp at hhead
+  | cons p l =>
+    rw [hl] at hhead hpos
+    have hp0 : p.1 = 0 := by simpa using hhead
+    refine ⟨?_, ?_⟩
+    · -- `tempoOk` of the entries in force
+      obtain ⟨q, l', e, hq⟩ := dropOverridden_head p l
+      have heff : effectivePairs bpms = q :: l' := by unfold effectivePairs; rw [hl]; exact e
+      unfold tempoOk
+      simp only [hself]
+      rw [heff] at hstrict ⊢
+      simp only [Bool.and_eq_true]
+      refine ⟨⟨by simp [hq, hp0], ?_⟩, ?_⟩
+      · rw [List.all_eq_true]
+        intro z hz
+        have hmem : ∀ (l : List (Rat × Rat)) z, z ∈ dropOverridden l → z ∈ l := by
+          intro l
+          induction l with
+          | nil => intro z hz; simp [dropOverridden] at hz
+          | cons a t iht =>
+            intro z hz
+            cases t with
+            | nil => simpa [dropOverridden] using hz
+            | cons b u =>
+              by_cases e' : a.1 = b.1
+              · simp only [dropOverridden, e', if_true] at hz
+                exact List.mem_cons_of_mem _ (iht z hz)
+              · simp only [dropOverridden, e', if_false] at hz
+                rcases List.mem_cons.mp hz with rfl | hz'
+                · simp
+                · exact List.mem_cons_of_mem _ (iht z hz')
+        have : z ∈ p :: l := hmem _ z (by rw [e]; exact hz)
+        exact (List.all_eq_true.mp hpos) z this
+      · rw [List.all_eq_true]
+        intro pq hpq
+        simp only [decide_eq_true_eq]
+        -- consecutive elements of a strictly ascending list
+        have key : ∀ (L : List (Rat × Rat)), L.Pairwise (fun a b => a.1 < b.1) → ∀ pq ∈ L.zip L.tail, pq.1.1 < pq.2.1 := by
+          intro L
+          induction L with
+          | nil => intro _ pq hpq; simp at hpq
+          | cons a t iht =>
+            intro hP pq hpq
+            cases t with
+            | nil => simp at hpq
+            | cons b u =>
+              have hP' := List.pairwise_cons.mp hP
+              simp only [List.tail_cons, List.zip_cons_cons, List.mem_cons] at hpq
+              rcases hpq with rfl | hpq
+              · exact hP'.1 b (by simp)
+              · exact iht hP'.2 pq (by simpa using hpq)
+        exact key _ hstrict pq hpq
+    · intro beat hb
+      have hle : (snapOfBeat p.1).le (snapOfBeat beat) = true := by rw [hp0]; exact snapOfBeat_zero_le beat hb
+      obtain ⟨q, l', e, _, ht⟩ := timeAtAux_dropOverridden l p (-(1000 * offsetSec)) (snapOfBeat beat) hle
+      have heff : effectivePairs bpms = q :: l' := by unfold effectivePairs; rw [hl]; exact e
+      unfold timeOfBeat
+      rw [changesOf_eq, changesOf_eq, hself, hl, heff]
+      simpa [timeAt] using ht
+
+/-- non-vacuity and the effect of the order of tied entries: `8=60, 8=240` is 240 bpm from beat 8 on, `8=240, 8=60`
+is 60 bpm — beat 12 lies at 5000 ms in the first file and at 8000 ms in the second -/
+example :
+    tempoOkWeak [(0, 120), (8, 60), (8, 240)] = true ∧ tempoOk [(0, 120), (8, 60), (8, 240)] = false ∧
+    effectivePairs [(8, 60), (0, 120), (8, 240)] = [(0, 120), (8, 240)] ∧
+    timeOfBeat 0 [(0, 120), (8, 60), (8, 240)] 12 = 5000 ∧ timeOfBeat 0 [(0, 120), (8, 240), (8, 60)] 12 = 8000 := by
+  decide +kernel
 
 /-!
 what is still missing for the full `write_read_exact` for the single statement "denote (write ms) = ms":
